@@ -1,27 +1,32 @@
 (* C18 — Concurrent read-only use of a graph is race-free and deterministic (PARTIAL).  Statements only; proofs in ConcProofs.v.
-   Proved: in the interleaving semantics of ConcModel (any number of threads, any scripts over the const entry points, ANY schedule) the
-   shared graph never changes and a thread that has finished holds exactly its single-threaded results.  NOT expressible in the model:
-   the memory-level claim "no data race" (there are no addresses, caches or memory orders in a Gallina value) and schedules finer than
-   one call.  That part is exhibited by running reader threads over one shared object under ThreadSanitizer. *)
-From Coq Require Import List Arith.
-From BG Require Import Base DirectedModel ConcModel ConcProofs.
+   Proved: in the interleaving semantics of ConcModel - ANY graph type, ANY set of const entry points (functions of the graph value), any
+   number of threads, any scripts, ANY schedule - the shared graph never changes and a thread that has finished holds exactly its
+   single-threaded results.  Instances used by the correspondence: the labelled classes (ConcModel.eval: all observers and iteration, ==, copy,
+   reversal / conversions, subgraph extraction, path searches, text writer) and the multigraph / weighted classes (ConcModel.eval_m: observers,
+   ==, Dijkstra distances, path searches).  NOT expressible in the model: the memory-level claim "no data race" (there are no addresses,
+   caches or memory orders in a Gallina value) and schedules finer than one call.  That part is exhibited by running reader threads over one
+   shared object under ThreadSanitizer. *)
+From Coq Require Import List Arith ZArith.
+From BG Require Import Base DirectedModel MultiModel ConcModel ConcProofs.
 Import ListNotations.
 
-Theorem C18_readers_deterministic : forall hs und (sched : list nat) (c0 : config) (k : nat), k < length (threads c0) ->
+Theorem C18_readers_deterministic : forall (G R Q : Type) (evalf : G -> Q -> R) (sched : list nat) (c0 : config G R Q) (k : nat), k < length (threads c0) ->
   let t0 := nth k (threads c0) {| script := []; results := [] |} in
-  let t := nth k (threads (crun hs und c0 sched)) {| script := []; results := [] |} in
-  results t0 = [] -> script t = [] -> results t = solo hs und (shared c0) (script t0) /\ shared (crun hs und c0 sched) = shared c0.
-Proof. intros hs und sched c0 k Hk. exact (crun_solo hs und sched c0 k Hk). Qed.
+  let t := nth k (threads (crun evalf c0 sched)) {| script := []; results := [] |} in
+  results t0 = [] -> script t = [] -> results t = solo evalf (shared c0) (script t0) /\ shared (crun evalf c0 sched) = shared c0.
+Proof. intros G R Q evalf sched c0 k Hk. exact (crun_solo evalf sched c0 k Hk). Qed.
 Print Assumptions C18_readers_deterministic.
-Theorem C18_shared_graph_unchanged : forall hs und sched c, shared (crun hs und c sched) = shared c.
+Theorem C18_shared_graph_unchanged : forall (G R Q : Type) (evalf : G -> Q -> R) sched (c : config G R Q), shared (crun evalf c sched) = shared c.
 Proof. intros. apply crun_shared. Qed.
 Print Assumptions C18_shared_graph_unchanged.
 
 Example C18_example :
   let g := fst (run true repaired (init 3) [AddEdge 0 1 7%Z false; AddEdge 1 2 5%Z false]) in
   let c0 := {| shared := g; threads := [ {| script := [RObserve; RPaths 0 2]; results := [] |}; {| script := [RReversed; REquals; RSubgraph [2; 1]]; results := [] |} ] |} in
-  let c := crun true false c0 [1; 0; 1; 1; 0; 0; 1] in
-  map script (threads c) = [[]; []] /\ map results (threads c) = [solo true false g [RObserve; RPaths 0 2]; solo true false g [RReversed; REquals; RSubgraph [2; 1]]].
+  let c := crun (eval true false) c0 [1; 0; 1; 1; 0; 0; 1] in
+  map script (threads c) = [[]; []] /\ map results (threads c) = [solo (eval true false) g [RObserve; RPaths 0 2]; solo (eval true false) g [RReversed; REquals; RSubgraph [2; 1]]].
 Proof. vm_compute. auto. Qed.
 Example C18_round_robin : conc_mismatches true false (fst (run true repaired (init 3) [AddEdge 0 1 7%Z false; AddEdge 1 2 5%Z false])) 3 2 [2; 1] 0 2 = 0%Z.
+Proof. vm_compute. reflexivity. Qed.
+Example C18_round_robin_weighted : mconc_mismatches 3 (fst (WeightedModel.uw_step repaired true (fst (WeightedModel.uw_step repaired true (dm_init 3) (WeightedModel.WAdd 0 1 8%Z false))) (WeightedModel.WAdd 1 2 4%Z false))) 3 2 0 2 = 0%Z.
 Proof. vm_compute. reflexivity. Qed.
